@@ -1611,30 +1611,48 @@ fn jsx_member_expr_to_expr(JSXMemberExpr { span, obj, prop }: &JSXMemberExpr) ->
 }
 
 fn inject_define_component_option(call: &mut CallExpr, name: &'static str, value: Expr) {
-    let options = call.args.get_mut(1);
-    if options
-        .as_ref()
-        .and_then(|options| options.spread)
-        .is_some()
-    {
+    // a spread argument list is left alone
+    if call.args.iter().any(|arg| arg.spread.is_some()) {
         return;
     }
 
-    match options.map(|options| &mut *options.expr) {
+    let is_named = |key: &PropName| match key {
+        PropName::Ident(ident) => ident.sym == name,
+        PropName::Str(str) => str.value == name,
+        PropName::Computed(ComputedPropName { expr, .. }) => {
+            matches!(&**expr, Expr::Lit(Lit::Str(str)) if str.value == name)
+        }
+        _ => false,
+    };
+
+    match call.args.get_mut(1).map(|options| &mut *options.expr) {
         Some(Expr::Object(object)) => {
-            if !object.props.iter().any(|prop| {
-                prop.as_prop()
-                    .and_then(|prop| prop.as_key_value())
-                    .and_then(|key_value| key_value.key.as_ident())
-                    .map(|ident| ident.sym == name)
-                    .unwrap_or_default()
-            }) {
-                object
+            // whatever the user wrote wins, however the key is spelled
+            let defined = object.props.iter().any(|prop| match prop {
+                PropOrSpread::Prop(prop) => match &**prop {
+                    Prop::KeyValue(KeyValueProp { key, .. })
+                    | Prop::Getter(GetterProp { key, .. })
+                    | Prop::Setter(SetterProp { key, .. })
+                    | Prop::Method(MethodProp { key, .. }) => is_named(key),
+                    Prop::Shorthand(ident) => ident.sym == name,
+                    Prop::Assign(..) => false,
+                },
+                PropOrSpread::Spread(..) => false,
+            });
+            if !defined {
+                let prop = PropOrSpread::Prop(Box::new(Prop::KeyValue(KeyValueProp {
+                    key: PropName::Ident(quote_ident!(name)),
+                    value: Box::new(value),
+                })));
+                // and so does whatever the user spreads into the options
+                match object
                     .props
-                    .push(PropOrSpread::Prop(Box::new(Prop::KeyValue(KeyValueProp {
-                        key: PropName::Ident(quote_ident!(name)),
-                        value: Box::new(value),
-                    }))));
+                    .iter()
+                    .position(|prop| matches!(prop, PropOrSpread::Spread(..)))
+                {
+                    Some(index) => object.props.insert(index, prop),
+                    None => object.props.push(prop),
+                }
             }
         }
         Some(..) => {
